@@ -501,9 +501,26 @@ def run(chk, pid):
                         {'op': 'add', 'r': r, 'ow': True, 'spelled': None, 'flavour': rng.randrange(12)},
                         {'op': 'add_hook', 'r': hook_r, 'flavour': rng.randrange(12)}]
                 reinstall = True
+        diverge = None
+        if pid == 'C11' and it % 5 == 1 and not reinstall:
+            # removal by a prefix that NO rule starts with but that shares the beginning of an edge with registered rules
+            # (leaves the edge after one or more common characters): nothing may be removed, every survivor stays intact
+            def inner_cuts(r):
+                return [i + 1 for i, c in enumerate(r['pat'][:-1]) if c not in (47, TOKEN) and r['pat'][i + 1] not in (47, TOKEN) and TOKEN not in r['pat'][:i + 2]]
+            cand = [r for r in uni if inner_cuts(r)]
+            if cand:
+                r = rng.choice(cand)
+                j = rng.choice(inner_cuts(r))
+                pre = r['pat'][:j] + [rng.choice([c for c in (120, 98, 97, 49, 122) if c != r['pat'][j]])]
+                mates = [x for x in uni if x['pat'][:max(1, j - 1)] == r['pat'][:max(1, j - 1)] and x['pat'] != r['pat']][:2]
+                ops2 = [{'op': 'add', 'r': x, 'ow': False, 'spelled': None, 'flavour': rng.randrange(12)} for x in [r] + mates] + \
+                       [{'op': 'remove_prefix', 'pre': pre}] + ops2[:3]
+                diverge = r
         probes = rl.instances(uni, [97, 47, 49, TOKEN], rng)
         if len(probes) > 10:
             probes = rng.sample(probes, 10)
+        if diverge is not None:
+            probes = rl.instances([diverge], [], rng)[:12] + probes[:6]
         if it % 7 == 6:
             probes = [rlit['pat'], seg + [47] + rl.s2l('zz') + tail] + probes[:6]
         if reinstall:
